@@ -24,6 +24,31 @@ set_option linter.unusedSimpArgs false
 namespace DadiVerif
 open FileFormat Gen.FileIO
 
+/-- **T obligation for `to_file`.**  The writer GENERATED from the current source (statement by statement) produces exactly
+    the lines `toFileLines`: the stripped comments behind `# `, the header `d1 d2 … [folded|unfolded] ["label" …]`, the data
+    row, the mask row — each terminated by `\n`.  Any change of what `to_file` writes breaks this statement. -/
+theorem C14_writer_lines (comments : List Str) (shape : List Nat) (folded : Bool) (popIds : Option (List Str)) (fmi : Bool)
+    (dataRow : List Str) (maskBits : List Bool) :
+    toFile comments shape folded popIds fmi dataRow maskBits
+      = (toFileLines comments shape folded popIds fmi dataRow maskBits).flatMap term := by
+  unfold toFile toFileLines
+  rw [comments_flat]
+  cases fmi
+  · simp [List.flatMap_append, term, headerLine, dimsPart, savetxtRow, NL]
+  · cases popIds <;> cases folded <;>
+      simp [List.flatMap_append, term, headerLine, dimsPart, savetxtRow, NL, flagWord, labelsPart, FOLDED, UNFOLDED]
+
+
+/-- **T obligation for `array_to_file`**: comments, the dimensions line, one data line, `os.linesep` after each -/
+theorem C14_array_writer_lines (comments : List Str) (shape : List Nat) (dataRow : List Str) :
+    arrayToFile comments shape dataRow = (arrayToFileLines comments shape dataRow).flatMap term := by
+  unfold arrayToFile arrayToFileLines linesep
+  have : (comments.flatMap fun line => ['#', ' '] ++ strip line ++ [NL]) = (comments.map commentLine).flatMap term :=
+    comments_flat comments
+  rw [this]
+  simp [List.flatMap_append, term, dimsPart, tofileSep, NL]
+
+
 /-- **to_file → from_file.**  For every well-formed spectrum (≥ 1 dimension, entries are tokens, one mask bit per entry,
     labels — if any — one per dimension and free of `"` and line breaks) and all comment lines without line breaks, reading
     the text that `to_file` writes returns the same shape, entries, folded flag and labels, the same mask (plus the two
@@ -43,7 +68,7 @@ theorem C14_roundtrip (fs : Spec) (comments : List Str) (mc : Bool) (h : WellFor
     · exact clean_headerLine _ _ _ _ hlab
     · exact clean_join _ (fun t ht => clean_of_noWs (h.toks t ht).2)
     · exact clean_maskLine _
-  rw [toFile_eq_lines]
+  rw [C14_writer_lines]
   unfold fromFile
   rw [lines_of_text _ hclean]
   simp only [toFileLines, if_true, List.map_append, List.map_cons, List.map_nil, List.append_assoc, List.cons_append,
@@ -67,14 +92,18 @@ theorem C14_roundtrip (fs : Spec) (comments : List Str) (mc : Bool) (h : WellFor
     rw [e] at this
     exact hs (List.length_eq_zero_iff.mp this.1.symm)
   simp only [lineAt, List.drop_zero, List.drop_succ_cons, List.headD_cons, parseHeader_new _ h.shape_ne _ _ hp,
-    if_neg h.shape_ne, splitWs_row _ h.toks, readCount_exact _ _ h.data_len, splitWs_maskLine,
-    mask_step (prodL fs.shape) fs.mask (h.mask_len.trans h.data_len)]
+    if_neg h.shape_ne, splitWs_row _ h.toks, readCount_exact _ _ h.data_len, splitWs_maskLine]
   have hpl : ∀ l, fs.popIds = some l → l.length = fs.shape.length := fun l hl => (h.labels l hl).1
   by_cases hm : fs.mask = []
   · have hd0 : fs.data.length = 0 := by rw [← h.mask_len, hm]; rfl
-    simp only [hm, if_true, construct_nomask _ _ _ _ _ _ h.data_len hpl, hd0, List.replicate_zero]
+    simp only [hm, List.map_nil, ↓reduceIte]
+    rw [construct_nomask fs.shape fs.data mc fs.folded true fs.popIds h.data_len hpl, hd0]
     cases mc <;> simp [maskCorners]
-  · simp only [hm, if_false, construct_marr _ _ _ _ _ _ _ h.data_len h.mask_len hpl]
+  · have hne : fs.mask.map fmtD ≠ [] := by simpa using hm
+    have hrc : readCount (prodL fs.shape) (fs.mask.map fmtD) = some (fs.mask.map fmtD) :=
+      readCount_exact _ _ (by simpa using h.mask_len.trans h.data_len)
+    simp only [if_neg hne, hrc, mapM_parseBit, Option.map_some]
+    rw [construct_marr fs.shape fs.data fs.mask mc fs.folded true fs.popIds h.data_len h.mask_len hpl]
 
 /-- the domain of `C14_roundtrip` is inhabited by a non-trivial case: 1×3 (a singleton axis), folded, labels with spaces,
     a masked middle entry and unmasked corners, the tokens `nan` and `1e-300` -/
@@ -106,7 +135,7 @@ theorem C14_roundtrip_stripped (fs : Spec) (comments : List Str) (mc : Bool) (h 
       = some ({ fs with mask := if mc then maskCorners fs.mask else fs.mask, extrapX := none }, comments) := by
   rw [C14_roundtrip fs comments mc h hc]
   congr 2
-  exact List.map_id'' hs
+  rw [List.map_congr_left (g := id) hs, List.map_id]
 
 /-- **pre-1.3 format** (`foldmaskinfo=False`: dimensions only in the header, no mask line).  The text parses to the same
     shape and entries, UNFOLDED, NO labels, NOTHING masked (apart from the corners if `mask_corners=True`) — whatever the
@@ -128,6 +157,122 @@ theorem C14_old_format (fs : Spec) (comments : List Str) (mc : Bool) (hs : fs.sh
     · have : headerLine fs.shape fs.folded fs.popIds false = dimsPart fs.shape := by simp [headerLine]
       rw [this]; exact clean_dimsPart _
     · exact clean_join _ (fun t h => clean_of_noWs (ht t h).2)
-  sorry
+  rw [C14_writer_lines]
+  unfold fromFile
+  rw [lines_of_text _ hclean]
+  simp only [toFileLines, Bool.false_eq_true, if_false, List.append_nil, List.map_append, List.map_cons, List.map_nil,
+    List.append_assoc, List.cons_append, List.nil_append]
+  have hhead : ∀ l, [term (headerLine fs.shape fs.folded fs.popIds false), term (joinWith SP fs.data)].head? = some l →
+      startsHash l = false := by
+    intro l hl
+    simp only [List.head?_cons, Option.some.injEq] at hl
+    subst hl
+    unfold term headerLine
+    rw [List.append_assoc]
+    exact startsHash_dims _ hs _
+  obtain ⟨htw, hdw⟩ := takeWhile_comments comments _ hhead
+  rw [htw, hdw, comments_back]
+  have hsw : splitWs ([] : Str) = [] := rfl
+  simp only [lineAt, List.drop_zero, List.drop_succ_cons, List.drop_nil, List.headD_cons, List.headD_nil,
+    parseHeader_old, if_neg hs, splitWs_row _ ht, readCount_exact _ _ hd, hsw, ↓reduceIte]
+  have hnone : ∀ l, (none : Option (List Str)) = some l → l.length = fs.shape.length := by intro l hl; cases hl
+  have := construct_nomask fs.shape fs.data mc false true none hd hnone
+  simp only [labelsVal] at this ⊢
+  rw [this]
+
+/-- non-vacuity of `C14_old_format`, and the information that format loses: a folded, labelled spectrum with a masked
+    entry comes back unfolded, unlabelled and with only the corners masked -/
+example :
+    fromFile true (toFile ["old".toList] [3] true (some ["p".toList]) false ["0".toList, "7".toList, "0".toList]
+                    [true, true, true])
+      = some ({ shape := [3], data := ["0".toList, "7".toList, "0".toList], mask := [true, false, true],
+                folded := false, popIds := none, extrapX := none }, ["old".toList]) := by
+  decide
+
+/-- **generic array writer / reader** (`Numerics.array_to_file` → `array_from_file`): shape, entries and (stripped)
+    comments come back, for every shape with ≥ 1 dimension. -/
+theorem C14_array_rw (shape : List Nat) (dataRow : List Str) (comments : List Str) (hs : shape ≠ [])
+    (hd : dataRow.length = prodL shape) (ht : ∀ t ∈ dataRow, Tok t) (hc : ∀ c ∈ comments, Clean c) :
+    arrayFromFile (arrayToFile comments shape dataRow) = some (shape, dataRow, comments.map strip) := by
+  have hclean : ∀ l ∈ arrayToFileLines comments shape dataRow, Clean l := by
+    intro l hl
+    simp only [arrayToFileLines, List.mem_append, List.mem_map, List.mem_cons, List.mem_nil_iff, or_false] at hl
+    rcases hl with ⟨c, hcm, rfl⟩ | rfl | rfl
+    · exact clean_commentLine (hc c hcm)
+    · exact clean_dimsPart _
+    · exact clean_join _ (fun t h => clean_of_noWs (ht t h).2)
+  rw [C14_array_writer_lines]
+  unfold arrayFromFile
+  rw [lines_of_text _ hclean]
+  simp only [arrayToFileLines, List.map_append, List.map_cons, List.map_nil]
+  have hhead : ∀ l, [term (dimsPart shape), term (joinWith SP dataRow)].head? = some l → startsHash l = false := by
+    intro l hl
+    simp only [List.head?_cons, Option.some.injEq] at hl
+    subst hl
+    exact startsHash_dims _ hs _
+  obtain ⟨htw, hdw⟩ := takeWhile_comments comments _ hhead
+  rw [htw, hdw, comments_back]
+  have hlt : ¬ dataRow.length < prodL shape := by omega
+  simp only [lineAt, List.drop_zero, List.drop_succ_cons, List.headD_cons, splitWs_dimsLine, mapM_parseInt, if_neg hs,
+    List.flatten_cons, List.flatten_nil, List.append_nil, splitWs_row _ ht, if_neg hlt]
+  rw [← hd, List.take_length]
+
+/-- a Spectrum written through the generic array writer: `data.filled()` replaces every masked entry by the fill value
+    (`nan`) before writing; the reader returns exactly that row -/
+theorem C14_array_masked (fs : Spec) (comments : List Str) (h : WellFormed fs) (hc : ∀ c ∈ comments, Clean c) :
+    arrayFillsMasked = true ∧
+    arrayFromFile (arrayToFile comments fs.shape (filledRow fs.data fs.mask))
+      = some (fs.shape, filledRow fs.data fs.mask, comments.map strip) := by
+  refine ⟨by decide, C14_array_rw _ _ _ h.shape_ne ?_ ?_ hc⟩
+  · simp [filledRow, List.length_zipWith, h.mask_len, h.data_len]
+  · intro t ht
+    unfold filledRow at ht
+    obtain ⟨i, hi, rfl⟩ := List.getElem_of_mem ht
+    rw [List.getElem_zipWith]
+    split
+    · exact tok_nan
+    · exact h.toks _ (List.getElem_mem _)
+
+example : arrayFromFile (arrayToFile [] [2, 1] (filledRow ["1".toList, "2.5".toList] [false, true]))
+    = some ([2, 1], ["1".toList, "nan".toList], []) := by decide
+
+/-- **pickle.**  The tuple `Spectrum_pickler` returns, fed to `Spectrum_unpickler` (both generated from the source, the
+    constructor call bound against the signature of `Spectrum.__new__`), rebuilds the same object: data, shape, mask,
+    folded flag, labels and `extrap_x` — in particular the unpickler does NOT re-mask the corners and needs no folding
+    check.  Holds for every spectrum whose mask and labels fit its shape (no condition on the entries). -/
+theorem C14_pickle (fs : Spec) (hd : fs.data.length = prodL fs.shape) (hm : fs.mask.length = fs.data.length)
+    (hp : ∀ l, fs.popIds = some l → l.length = fs.shape.length) :
+    unpickle (reduceArgs fs) = some fs := by
+  obtain ⟨shape, data, mask, folded, popIds, extrapX⟩ := fs
+  simp only at hd hm hp
+  cases popIds with
+  | none => cases extrapX <;> simp [unpickle, reduceArgs, construct, getData, getMask, getFolded, getPopIds, getExtrapX,
+      labelsVal, numVal, hd, hm]
+  | some l =>
+    have := hp l rfl
+    cases extrapX <;> simp [unpickle, reduceArgs, construct, getData, getMask, getFolded, getPopIds, getExtrapX,
+      labelsVal, numVal, hd, hm, this]
+
+/-- non-vacuity: unmasked corners, a masked interior entry, folded, labels, `extrap_x` set -/
+example : unpickle (reduceArgs { shape := [2, 2], data := ["1".toList, "2".toList, "3".toList, "4".toList],
+                                 mask := [false, true, false, false], folded := true,
+                                 popIds := some ["a b".toList, "c".toList], extrapX := some "0.01".toList })
+    = some { shape := [2, 2], data := ["1".toList, "2".toList, "3".toList, "4".toList],
+             mask := [false, true, false, false], folded := true,
+             popIds := some ["a b".toList, "c".toList], extrapX := some "0.01".toList } := by decide
+
+/-- the registration that makes `pickle` use the pair above -/
+theorem C14_pickle_registered :
+    copyregArgs = ["Spectrum", picklerName, reduceFunc] ∧ reduceFields.length = unpickleParams.length := by
+  decide
+
+/-- **gzip / plain transport.**  `to_file` writes `str` objects and `from_file` compares the lines it reads with the `str`
+    `'#'`, so both files must be opened in TEXT mode: for `gzip.open` that needs a `t` in the mode string (its default is
+    binary), for `open` the absence of `b`.  On the pinned tree this statement is FALSE (`'wb'` / `'rb'`: finding F-14) and
+    the obligation is reported as not discharged. -/
+theorem C14_gzip_text_mode :
+    't' ∈ toFileGzMode ∧ 't' ∈ fromFileGzMode ∧ 'b' ∉ toFilePlainMode ∧ 'b' ∉ fromFilePlainMode
+      ∧ 'b' ∉ arrayToFileMode ∧ 'b' ∉ arrayFromFileMode := by
+  decide
 
 end DadiVerif
